@@ -112,7 +112,8 @@ func (s *service) GetPyramid(ctx context.Context, addr boson.Address) (pyramid m
 			return fmt.Errorf("traversal: joiner error on %q: %w", ref, err)
 		}
 		// for one chunk, it should save file chunk for known file size.
-		pyramid[ref.String()] = dataWithSpan(j.GetRootData(), uint64(span))
+		// key by the chunk address (an encrypted reference carries the key after it)
+		pyramid[boson.NewAddress(ref.Bytes()[:boson.HashSize]).String()] = dataWithSpan(j.GetRootData(), uint64(span))
 		if span > boson.ChunkSize {
 			j.SetSaveEdgeChunks(pyramid)
 			if err := j.IterateChunkAddresses(func(addr boson.Address) error { return nil }); err != nil {
